@@ -616,8 +616,15 @@ def extra(rng, tier):
     runs = 0
     n = 6
     for iface in ("wsgi", "asgi"):
-        for reader_delay, producer_delay, ping in ((0.06, 0.0, 0.02), (0.0, 0.05, 0.02), (0.03, 0.03, 0.01), (0.0, 0.0, 0.5)):
+        grid = [(0.06, 0.0, 0.02, 0.0), (0.0, 0.05, 0.02, 0.0), (0.03, 0.03, 0.01, 0.0), (0.0, 0.0, 0.5, 0.0),
+                # a reader that stalls once, for longer than a second (whatever the ping interval), with events ready
+                (0.0, 0.0, 60, 1.4), (0.0, 0.0, 0.3, 1.4)]
+        if tier == "thorough":
+            grid += [(0.0, 0.0, 60, 3.3), (0.0, 0.0, 0.5, 5.5)]
+        for reader_delay, producer_delay, ping, stall in grid:
             label = "slow %s reader=%.2fs producer=%.2fs ping=%.2fs" % (iface, reader_delay, producer_delay, ping)
+            if stall:
+                label += " stall=%.1fs" % stall
             got, err = [], []
 
             def run_wsgi_case():
@@ -634,6 +641,8 @@ def extra(rng, tier):
                         got.append(chunk)
                         if reader_delay:
                             time.sleep(reader_delay)
+                        if stall and len(got) == 1:
+                            time.sleep(stall)
                 finally:
                     if hasattr(body, "close"):
                         body.close()
@@ -654,6 +663,8 @@ def extra(rng, tier):
                             got.append(msg["body"])
                             if reader_delay:
                                 await asyncio.sleep(reader_delay)
+                            if stall and len(got) == 1:
+                                await asyncio.sleep(stall)
 
                     resp = asgi_responses.SendEventResponse(producer(), ping_interval=ping)
                     await asyncio.wait_for(resp({"type": "http", "method": "GET", "headers": []}, receive, send), 20)
